@@ -6,7 +6,8 @@ VARIABLE hist
 Obs == [op |-> op, state |-> {<<u, pos[u], vel[u], ts[u]>> : u \in Units}]
 Finish == op' = [name |-> "finish", t |-> now, args |-> <<>>] /\ UNCHANGED <<pos, vel, ts, now>>
 SimInit == Init /\ hist = <<>>
-SimNext == /\ IF TLCGet("level") >= Depth \/ now >= MaxTime THEN Finish ELSE Next
+SimNext == /\ op.name # "finish"          \* one Finish step ends the behaviour (and prints it once)
+           /\ IF TLCGet("level") >= Depth \/ now >= MaxTime THEN Finish ELSE Next
            /\ hist' = Append(hist, Obs')
 SimSpec == SimInit /\ [][SimNext]_<<vars, hist>>
 InitState == {<<u, [d \in 1 .. Dims |-> IF Len(u) = 1 THEN (4 * u[1]) % Box ELSE (4 * u[1] + Offset(u[2])) % Box]>> : u \in Units}
